@@ -186,3 +186,26 @@ Theorem C13_loaded_from_resources : forall rs ident r,
   In r rs /\ (r_name r = ident \/ In ident (r_aliases r)).
 Proof. exact loaded_from_resources. Qed.
 Print Assumptions C13_loaded_from_resources.
+
+(* ------------------------------------------------------------------ the choice in full (since
+   /repo 8ebf406): highest priority, and among equal priorities the resource name that sorts first
+   (bytewise); hence a function of the SET of matching redirect rules, independent of the order in
+   which the index delivers them (batch or incremental construction, optimised or not) *)
+Theorem C13_redirect_choice_best : forall m name,
+  pick_redirect m = Some name <->
+  exists p, candidate m name p /\ forall n' p', candidate m n' p' -> good (name, p) (n', p').
+Proof. exact pick_redirect_best. Qed.
+Print Assumptions C13_redirect_choice_best.
+
+Theorem C13_redirect_choice_set_only : forall m1 m2,
+  (forall r, In r m1 <-> In r m2) -> pick_redirect m1 = pick_redirect m2.
+Proof. exact pick_redirect_set_only. Qed.
+Print Assumptions C13_redirect_choice_set_only.
+
+Theorem C13_offer_order_total : forall a b : str * Z, good a b \/ good b a.
+Proof.
+  intros [an ap] [bn bp]. unfold good. cbn [fst snd].
+  destruct (Z.lt_trichotomy ap bp) as [H|[H|H]]; [right; left; exact H| |left; left; exact H].
+  destruct (str_leb_total an bn) as [L|L]; [left|right]; right; split; auto.
+Qed.
+Print Assumptions C13_offer_order_total.
